@@ -51,11 +51,13 @@ let () =
            let lenc = if w then pair (accepted_length_cached p) else "nowf" in
            let lenc0 = if w then pair (accepted_length_cached_v0 p) else "nowf" in
            let lenu = if not w then "nowf" else if cheap then pair (accepted_length p) else "skip" in
-           let suf = if not w then "nowf" else if cheap then (match constant_suffix p with None -> "none" | Some s -> hex s) else "skip" in
+           let suf = if not w then "nowf" else (match constant_suffix_b p with None -> "none" | Some s -> hex s) in
+           let sufu = if not w then "nowf" else if float_of_string cost <= 3000000.0 && suf = "x" then
+               (match constant_suffix p with None -> "none" | Some s -> hex s) else "same" in
            let buf = Buffer.create 1200 in
            if w then enum (nums alpha) (int_of_string la) (fun s -> Buffer.add_string buf (b2s (accepts_b p s)));
-           Printf.fprintf oc "%s wf=%s sat=%s af=%s lenc=%s lenc0=%s lenu=%s suf=%s acc=%s\n" id (b2s w) (b2s (sat p))
-             (b2s (assertion_free p)) lenc lenc0 lenu suf (Buffer.contents buf);
+           Printf.fprintf oc "%s wf=%s sat=%s af=%s lenc=%s lenc0=%s lenu=%s suf=%s sufu=%s acc=%s\n" id (b2s w) (b2s (sat p))
+             (b2s (assertion_free p)) lenc lenc0 lenu suf sufu (Buffer.contents buf);
            flush oc
        | _ -> ()
      done
